@@ -7,6 +7,7 @@ import (
 	"os"
 	"strings"
 
+	"github.com/kaptinlin/gozod/core"
 	"github.com/kaptinlin/gozod/jsonschema"
 
 	"verifharness/hx"
@@ -244,7 +245,7 @@ func (h *Hist) Step(ri int, method string, variant int, o *hx.Out) bool {
 // ---------------------------------------------------------------------------------------------
 // conversion and parse steps (C12)
 
-// OptionSets are the ToJSONSchema option settings exercised by the histories.
+// OptionSets are the fixed ToJSONSchema option settings exercised by the histories.
 func OptionSets() []jsonschema.Options {
 	return []jsonschema.Options{
 		{},
@@ -254,6 +255,36 @@ func OptionSets() []jsonschema.Options {
 		{Target: "draft-07"},
 		{Cycles: "throw"},
 	}
+}
+
+// NOptions counts the option settings: the fixed ones, then the ones that carry a private metadata registry built
+// for the family at hand (one that gives only the converted schema an ID, one that gives every live schema an ID,
+// one that is empty).
+func NOptions() int { return len(OptionSets()) + 3 }
+
+// OptionsFor builds option setting opt for converting live[i] of the family `live`. The private registries are
+// built afresh for each call (and for the isolated twin from the twin's own schemas), so whatever a conversion
+// keeps beyond its own run is kept under another registry than the next conversion uses.
+func OptionsFor(opt int, live []Schema, i int) jsonschema.Options {
+	fixed := OptionSets()
+	if opt < len(fixed) {
+		return fixed[opt]
+	}
+	reg := core.NewRegistry[core.GlobalMeta]()
+	add := func(j int) {
+		if zs, ok := live[j].(core.ZodSchema); ok {
+			reg.Add(zs, core.GlobalMeta{ID: fmt.Sprintf("L%d", j)})
+		}
+	}
+	switch opt - len(fixed) {
+	case 0:
+		add(i)
+	case 1:
+		for j := range live {
+			add(j)
+		}
+	}
+	return jsonschema.Options{Metadata: reg}
 }
 
 // relook re-snapshots every live schema and lists those whose exported-internals content or parse behaviour
@@ -281,12 +312,15 @@ func (h *Hist) relook(o *hx.Out, why string) (changed, bagChanged []int) {
 // derivation steps of this history replayed on a fresh base, with nothing converted before.
 func (h *Hist) Conv(i, opt int, o *hx.Out) {
 	l := h.Live[i]
-	opts := OptionSets()[opt]
+	lives := make([]Schema, len(h.Live))
+	for j, x := range h.Live {
+		lives[j] = x.S
+	}
 	iso := "replay-failed"
 	if twin := Replay(h.Base, h.Calls); twin != nil && i < len(twin) {
-		iso = JS(twin[i], opts)
+		iso = JS(twin[i], OptionsFor(opt, twin, i))
 	}
-	doc := JS(l.S, opts)
+	doc := JS(l.S, OptionsFor(opt, lives, i))
 	changed, bagChanged := h.relook(o, fmt.Sprintf("conv %d", i))
 	same, g := 1, "g"+idx(bagChanged) // which live Bags were rewritten by this conversion
 	if doc != iso {
